@@ -147,6 +147,19 @@ def write_mapping(fn, facts, adders, getters, generic_param):
         while isinstance(e, dict) and e.get("k") == "Construct" and len(e.get("args", [])) == 1:
             e = unwrap_all_casts(e["args"][0])
         via = None
+        if isinstance(e, dict) and e.get("k") == "Ref" and e.get("d") == "local":
+            # an index that reaches the item through a local with several stores (a look-aside hit or the insertion): the store
+            # that inserts says which generic member is stored here
+            defs_ = []
+            for x_ in ir.walk(fn["body"]):
+                if x_.get("k") == "Decl":
+                    defs_ += [v_["init"] for v_ in x_.get("vars", []) if v_.get("id") == e.get("id") and v_.get("n") == e.get("n") and v_.get("init") is not None]
+                elif x_.get("k") == "Bin" and x_.get("op") == "=" and path(x_.get("lhs")) == path(e):
+                    defs_.append(x_.get("rhs"))
+            ins_ = [unwrap_all_casts(d_) for d_ in defs_ if isinstance(unwrap_all_casts(d_), dict) and unwrap_all_casts(d_).get("k") == "MCall" and
+                    callee_qn(unwrap_all_casts(d_)) in adders and unwrap_all_casts(d_).get("args")]
+            if len(ins_) == 1:
+                e = ins_[0]
         if isinstance(e, dict) and e.get("k") == "MCall" and callee_qn(e) in adders and e.get("args"):
             via = callee_qn(e)
             e = unwrap_all_casts(e["args"][0])
@@ -654,6 +667,39 @@ def check_block_state_cleared(run, rule):
     for tgt, (f, ln) in sorted(touched.items()):
         n += 1
         ok = any(tgt[:len(r)] == r for r in resets)
+        if not ok and tgt[1] not in behind:
+            # ... or only ever in a condition that also tests a member clear() does reset (`index < table.size() && key == last_key`
+            # with the index parked out of range by clear())
+            comp = None
+            reads_ = 0
+            good_ = 0
+            for g_fn in facts.functions.values():
+                if g_fn.get("cls") != BLK or g_fn.get("body") is None or g_fn.get("ctor") or g_fn["qn"].endswith("::operator="):
+                    continue
+                envg = Env(g_fn["body"])
+                for st_, gg_, lps_ in ir.guarded_statements(g_fn["body"], envg):
+                    nodes_ = ir.walk(st_["cond"]) if st_.get("k") == "IfCond" else ([] if st_.get("k") in ("LoopHead", "SwitchHead") else ir.walk(st_))
+                    txt_ = repr(gg_) + (repr(ir.cond(st_["cond"], envg)) if st_.get("k") == "IfCond" else "")
+                    for x_ in nodes_:
+                        if x_.get("k") == "Member" and path(x_) and tuple(path(x_)[:len(tgt)]) == tgt:
+                            # (the left-hand side of a store is not a read)
+                            reads_ += 1
+                            # (a companion is a member that changes only together with this one - the table the index points
+                            # into refills on its own and is none)
+                            others_ = [r_ for r_ in resets if r_ != tgt and ("this.%s" % r_[1]) in txt_ and
+                                       all(any(w_[:len(tgt)] == tgt for w_ in writes(h_)) for h_ in facts.functions.values()
+                                           if h_.get("cls") == BLK and h_.get("body") is not None and not h_.get("ctor") and h_["key"] != clr["key"] and
+                                           not h_["qn"].endswith("::operator=") and any(w_[:len(r_)] == r_ for w_ in writes(h_)))]
+                            if others_:
+                                good_ += 1
+                                comp = others_[0][1]
+            stores_ = sum(1 for g_fn in facts.functions.values() if g_fn.get("cls") == BLK and g_fn.get("body") is not None
+                          for x_ in ir.walk(g_fn["body"]) if x_.get("k") in ("Bin", "OpCall") and x_.get("op") == "=" and
+                          path((x_.get("lhs") if x_["k"] == "Bin" else (x_.get("args") or [None])[0]) or {}) == tgt)
+            if comp is not None and reads_ - stores_ <= good_ and good_ > 0:
+                run.ob(rule, "CdnsBlock::clear:resets-%s" % ".".join(tgt[1:]), True, clr, clr["line"],
+                       "%s is read only in conditions that also test %s, which clear() re-initialises" % (".".join(tgt[1:]), comp))
+                continue
         if not ok and tgt[1] in behind:
             run.ob(rule, "CdnsBlock::clear:resets-%s" % ".".join(tgt[1:]), True, clr, clr["line"],
                    "%s is read only while %s is set, and clear() lowers that flag" % (".".join(tgt[1:]), behind[tgt[1]]))
@@ -733,6 +779,8 @@ def check(run):
         # the array loop (read_array with a callback, or the same loop written out): what one element consumes
         rk = [c.kind for c in consumption.consumes_in(cons_il[0].detail.get("body"), facts) if not c.kind.startswith("RAW:")]
     ok = iwa.top is not None and iwa.top.kind == "ARRAY" and iwa.top.elem is not None and iwa.top.elem.kind == "UINT32" and rk == ["UINT"]
+    if not ok and iwa.top is None:
+        ok = None           # the writer hands the list to something the emission grammar does not know: no claim either way
     run.ob("R01.1", "IndexListItem:[uint]", ok, il_w, il_w["line"], "index lists are arrays of unsigned on both sides" if ok else
            "IndexListItem writer %s / reader %s" % (iwa.top.kind if iwa.top else "?", rk))
     run.floor("R01.1", 240, "schema-agreement obligations (keyset/member/kind for ~115 rows)")
